@@ -266,6 +266,46 @@ def run(ctx, rep):
     rep.note("exposure_membership_cases", n_cases)
     rep.check(not bad, "R8", key(ge, None, "stored orders: pending/refused skipped, matched always, unmatched while live; "
                                            "the prospective order is counted whatever its own status"), ge, None, "; ".join(bad))
+    # starting-price orders: every one of them adds its whole liability to the figure of the outcome it loses on
+    # (BACK: the selection loses, LAY: it wins) - accumulated, one term per order
+    sp_terms = {}
+    sp_bad = []
+    for n in cfg.live_nodes():
+        if n.kind != "stmt" or not any("order.order_type.liability" in utext(e) for e in n.exprs):
+            continue
+        if n.ast not in list(ast.walk(loops[0])):
+            continue
+        gs = [(utext(g.exprs[0]), pol) for g, pol in cfg.guards(n.id)]
+        side = "BACK" if ("order.side == 'BACK'", True) in gs else ("LAY" if ("order.side == 'BACK'", False) in gs or
+                                                                    ("order.side == 'LAY'", True) in gs else "?")
+        st = n.ast
+        if isinstance(st, ast.AugAssign) and isinstance(st.target, ast.Name) and utext(st.value) == "order.order_type.liability" \
+                and isinstance(st.op, ast.Sub) and ("order.order_type.ORDER_TYPE in ORDER_TYPES_SP", True) in gs:
+            sp_terms.setdefault(side, set()).add(st.target.id)
+        else:
+            sp_bad.append(utext(st))
+    tot = {}
+    for s2 in walk_nodes(ge.node.body, ast.Assign):
+        if utext(s2.targets[0]) in ("worst_possible_profit_on_win", "worst_possible_profit_on_lose"):
+            tot[utext(s2.targets[0])] = s2.value
+    good_sp = not sp_bad and set(sp_terms) == {"BACK", "LAY"} and all(len(v) == 1 for v in sp_terms.values())
+    if good_sp:
+        b, l = list(sp_terms["BACK"])[0], list(sp_terms["LAY"])[0]
+        def plus_terms(e):
+            if isinstance(e, ast.BinOp) and isinstance(e.op, ast.Add):
+                return plus_terms(e.left) + plus_terms(e.right)
+            return [utext(e)]
+        good_sp = b != l and b in plus_terms(tot.get("worst_possible_profit_on_lose", ast.Constant(value=0))) and \
+            l in plus_terms(tot.get("worst_possible_profit_on_win", ast.Constant(value=0)))
+        for nm in (b, l):
+            st_all = [x for x in walk_nodes(ge.node.body, (ast.Assign, ast.AugAssign))
+                      if nm in [utext(t) for t in (x.targets if isinstance(x, ast.Assign) else [x.target])]]
+            inits = [x for x in st_all if isinstance(x, ast.Assign)]
+            good_sp = good_sp and len(inits) == 1 and utext(inits[0].value) in ("0.0", "0") and \
+                inits[0] not in list(ast.walk(loops[0])) and len(st_all) == 2
+    rep.check(good_sp, "R8", key(ge, None, "every starting-price order adds its whole liability to the outcome it loses on "
+                                           "(BACK: on lose, LAY: on win)"), ge, None,
+              "terms: %s; other uses of the liability: %s" % (sp_terms, sp_bad))
     sides = {}
     for n, c in node_calls(cfg, "append"):
         r = recv_text(c)
@@ -342,6 +382,29 @@ def run(ctx, rep):
                               "execute=False skips the controls; only the replace handlers may use it, for the "
                               "replacement of an order whose replace request was validated")
     rep.floor("R9", "place_order(execute=False) sites", n9, 2)
+    replacement_values(ctx, rep, "R9")
+
+
+def replacement_values(ctx, rep, R):
+    """the order that replaces a replaced one carries what the exchange (or the simulated exchange) reported:
+    the price and size of the place half of the replace report - not values kept on the replaced order, which
+    the cancel half has already reset (the figures of R8 value the new order at its own price and size)"""
+    from sa.kinds import expanded
+    prog = ctx.prog
+    want = {"BetfairExecution": ("instruction_report.place_instruction_reports.instruction.limit_order.price",
+                                 "instruction_report.place_instruction_reports.instruction.limit_order.size"),
+            "SimulatedExecution": ("instruction.get('newPrice')", "cancel_instruction_report.size_cancelled")}
+    n = 0
+    for cn, (wp, ws) in want.items():
+        fn = prog.own_method(cn, "execute_replace")
+        for c in walk_calls(fn.node.body):
+            if call_name(c) == "create_order_replacement":
+                n += 1
+                got = tuple(expanded(fn, a) for a in c.args[1:3]) if len(c.args) >= 3 else ()
+                rep.check(len(c.args) >= 3 and utext(c.args[0]) == "order" and got == (wp, ws), R,
+                          key(fn, c, "the replacing order takes price and size from the place half of the replace report"),
+                          fn, c, "got %s" % (got,))
+    rep.floor(R, "create_order_replacement sites in the replace handlers", n, 2)
 
 
 def _r5(ctx, rep, se, cfg):
